@@ -61,8 +61,8 @@ Comparison
     canon(tree, value)            canonical comparable form (sets sorted, tuples padded, floats by bits,
                                   decimal negative zero folded, EMPTY kept distinct from None)
     same(tree, a, b)              canon equality
-    diffs(tree, a, b) -> [ {"path","leaf","kind","a","b"} ]   kinds: value | null | null-as-empty | length |
-                                  sub-ms-drift   (a = expected, b = observed)
+    diffs(tree, a, b) -> [ {"path","leaf","kind","a","b"} ]   kinds: value | null | null-as-empty | empty-as-null |
+                                  length | sub-ms-drift   (a = expected, b = observed)
 
 Python objects
     to_python(tree, value, style=0, factory=None, hashable=False)   object to hand to a driver
@@ -791,6 +791,8 @@ def _diff(tree, a, b, path, out, limit, _root):
         kind = "null"
         if a is None and (_is_empty(b) or (t in _STRINGY and b == "")):
             kind = "null-as-empty"
+        elif b is None and t in _STRINGY and a == "":
+            kind = "empty-as-null"
         out.append({"path": list(path), "leaf": _leafname(tree), "kind": kind, "a": a, "b": b})
         return
     if t in _SCALAR_SET:
@@ -806,7 +808,20 @@ def _diff(tree, a, b, path, out, limit, _root):
     if len(a) != len(b):
         out.append({"path": list(path), "leaf": t, "kind": "length", "a": len(a), "b": len(b)})
         return
-    if t in ("list", "set", "vector"):
+    if t == "set":
+        # compare as multisets: drop the common elements, pair what is left over in canonical order
+        kb = [_sort_key(y) for y in b]
+        rest_a = []
+        for x in a:
+            k = _sort_key(x)
+            if k in kb:
+                kb.remove(k)
+            else:
+                rest_a.append(x)
+        rest_b = sorted((json.loads(k) for k in kb), key=_sort_key)
+        for i, (x, y) in enumerate(zip(rest_a, rest_b)):
+            _diff(tree["of"], x, y, path + ["*"], out, limit, _root)
+    elif t in ("list", "vector"):
         for i, (x, y) in enumerate(zip(a, b)):
             _diff(tree["of"], x, y, path + [i], out, limit, _root)
     elif t == "map":
@@ -1017,7 +1032,9 @@ def normalise(tree, obj):
     if t == "map":
         if not hasattr(obj, "items"):
             raise NormaliseError("map: got %r" % (obj,))
-        return [[normalise(tree["k"], k), normalise(tree["v"], x)] for k, x in obj.items()]
+        # the driver's OrderedMap keeps its pairs in `_items`; reading them directly does not depend on key lookups
+        pairs = obj._items if isinstance(getattr(obj, "_items", None), list) else obj.items()
+        return [[normalise(tree["k"], k), normalise(tree["v"], x)] for k, x in pairs]
     if t in ("tuple", "udt"):
         subs = tree["of"] if t == "tuple" else [fl[1] for fl in tree["fields"]]
         if isinstance(obj, tuple):
